@@ -17,6 +17,13 @@ Two correspondences per run:
       the model after every line, and with an oracle that computes "first value per letter" from the
       abstract report (never from the model).
 
+  (c) end to end: a real `SerialWriter` (fake port of sim_c16) or `SocketWriter` (its localhost TCP device) CONNECTED to a
+      scripted device that reports at every stage of a session - before it has read anything (auto-reports, a status
+      queued ahead of the greeting), as the line that proves the firmware alive (`ok T:.. B:..` answering the connect
+      probe, a ` T:..` auto-report), right behind it while the handshake is still running, and in answer to statements
+      the caller writes; after each stage `get_parameter` on every letter, judged by the same first-value oracle over
+      the whole session and compared with the model's readings after the same lines.
+
 Ambient configuration: a share of the sequences of (b) is delivered with Python's `logging` configured the way an
 application tracing a session would have it (root / package / module logger at DEBUG, INFO or WARNING, a handler that
 formats the records into memory or one that drops them, switched on before the writer exists or between two lines).
@@ -710,6 +717,310 @@ def frac_text_q(q: Fraction):
     return str(q.numerator) if q.denominator == 1 else f"{q.numerator}/{q.denominator}"
 
 
+# ------------------------------------------------------------------ end to end: a connected writer, a device that talks
+# The sequences above hand lines to the writer's receive callback.  Here the lines travel the whole way: a real
+# `SerialWriter` (on the fake port of sim_c16) or `SocketWriter` (on its localhost TCP device) connects to a scripted
+# device that reports at every stage of a session -
+#   hello : what the device says on its own before it has read anything (auto-reports switched on in an earlier session,
+#           a Grbl / Marlin greeting somewhere among them),
+#   probe : its answer to the first command it reads, the connect probe (a bare `ok` or an `ok T:.. B:..`),
+#   after : more unasked reports right behind that answer, while the writer is still finishing its handshake,
+#   stmts : statements written by the caller, each answered with reports and a closing `ok` (bare or leading a report);
+# every other command the device reads (line-number resets of the handshake) gets a bare `ok`.
+# After each stage - once the device HAS SENT the stage's last line - `get_parameter` is asked for every letter; the
+# answer is polled for a grace period (a reading is judged once the reader thread had ample time to take the line in).
+GREETINGS = ["start", "Grbl 1.1h ['$' for help]", "Grbl 1.1f ['$' for help]"]
+E2E_STATEMENTS = ["M114", "M105", "G1 X1 F600", "G38.2 Z-5 F50", "M400", "G4 P1", "M114 R", "G0 Y2", "M119"]
+E2E_GRACE = 1.5  # seconds a reading may lag behind the device's last line before it is judged
+# prefixes that make the bundled sender treat a line as something else than a report (acknowledgement, error, resend
+# request, greeting, debug chatter): an unasked report of this family never starts with one
+SENDER_WORDS = ("ok", "error", "alarm", "!!", "resend", "rs", "start", "grbl", "debug_")
+
+
+def gen_e2e_report(rng, ok):
+    """A report as a device puts it on the wire: one line, no line break inside (the wire adds `\\n`), nothing in front
+    of a leading `ok`; unasked reports never lead with `ok`."""
+    while True:
+        r = rng.choice([gen_marlin_pos, gen_marlin_temp, gen_marlin_temp, gen_mixed] if ok else REPORT_FAMILIES + [gen_marlin_temp])(rng)
+        r["ok"] = ok
+        r["lead"] = "" if ok else rng.choice(["", "", " ", " ", "  ", "\t "])
+        r["trail"] = rng.choice(["", "", "", "\r", " ", " \r"])
+        if not first_values(r):
+            continue
+        if not ok and rep_body(r).lower().startswith(SENDER_WORDS):
+            continue
+        return r
+
+
+def gen_e2e_case(rng, via=None):
+    def unasked(weights):
+        return [("report", gen_e2e_report(rng, False)) for _ in range(rng.choice(weights))]
+
+    def answer():
+        # Marlin leads the report with the ok; Grbl (and Marlin for M114) sends the report, then a bare ok
+        return [("report", gen_e2e_report(rng, True))] if rng.random() < 0.5 else unasked([0, 1, 1, 2]) + [("plain", "ok")]
+
+    while True:
+        hello = unasked([0, 1, 1, 2])
+        if rng.random() < 0.5:
+            hello.insert(rng.randint(0, len(hello)), ("plain", rng.choice(GREETINGS)))
+        probe = unasked([0, 0, 1]) + ([("report", gen_e2e_report(rng, True))] if rng.random() < 0.5 else [("plain", "ok")])
+        after = unasked([0, 1, 1, 2])
+        if any(k == "report" for k, _ in hello + probe + after):
+            break
+    texts = rng.sample(E2E_STATEMENTS, rng.choice([1, 1, 2]))
+    return {"e2e": True, "via": via or rng.choice(["serial", "socket"]), "hello": hello, "probe": probe, "after": after,
+            "stmts": [{"stmt": t, "reply": answer()} for t in texts]}
+
+
+def e2e_wire(item):
+    """(kind, payload) -> the line on the wire"""
+    return (rep_line(item[1]) if item[0] == "report" else item[1]) + "\n"
+
+
+def e2e_hold_index(lines):
+    """Scheduling only.  A controller that greets with `Grbl …` makes the bundled sender drop line numbers; the sender
+    then starts its (empty) start-up job without a line-number reset, and the job can only move on an `ok` read AFTER
+    it has started (an `ok` read before leaves connect() waiting for ever - the liveness observation recorded in
+    Props/C16.lean and harness/c16.py, outside this property).  So when such a greeting is the first line that proves
+    the device alive (the sender's rule: a greeting, a leading `ok`, or `T:` anywhere), the device of this harness sends
+    the rest of its connect-stage lines late: once the start-up job waits.  Returns the index to hold from, or None."""
+    for i, ln in enumerate(lines):
+        if ln.startswith("Grbl "):
+            return i + 1
+        if ln.startswith(("start", "ok")) or "T:" in ln:
+            return None
+    return None
+
+
+def e2e_stages(case):
+    """[(what the caller did, [(where, item), …]), …]: stage 0 is connect(), stage k the k-th write()."""
+    st = [("connect()", [("sent before the device read anything", it) for it in case["hello"]]
+           + [("answer to the connect probe", it) for it in case["probe"]]
+           + [("sent right behind the probe's answer", it) for it in case["after"]])]
+    for s in case["stmts"]:
+        st.append((f"write({s['stmt']!r})", [(f"reply to {s['stmt']}", it) for it in s["reply"]]))
+    return st
+
+
+def e2e_letters(case):
+    s = set("XYZEFSTB")
+    for _, items in e2e_stages(case):
+        for _, it in items:
+            if it[0] == "report":
+                s.update(L for L, _ in rep_mentions(it[1]))
+                s.update(t[1] for t in it[1]["toks"] if t[0] == "L")
+    return "".join(L + (L.lower() if L.lower() != L else "") for L in sorted(s))
+
+
+def e2e_repr(case):
+    return {"e2e": True, "via": case["via"],
+            "lines": {what: [e2e_wire(it) for _, it in items] for what, items in e2e_stages(case)},
+            "hello": [list(it) for it in case["hello"]], "probe": [list(it) for it in case["probe"]],
+            "after": [list(it) for it in case["after"]],
+            "stmts": [{"stmt": s["stmt"], "reply": [list(it) for it in s["reply"]]} for s in case["stmts"]]}
+
+
+def e2e_expected(case):
+    """The oracle's table after every stage: first value per letter of every report, later reports over earlier ones;
+    `src[L]` remembers the line that last reported L and where in the session it was sent."""
+    table, src, out = {}, {}, []
+    for _, items in e2e_stages(case):
+        for where, it in items:
+            if it[0] == "report":
+                for L, v in first_values(it[1]).items():
+                    table[L] = float(v)
+                    src[L] = (where, e2e_wire(it))
+        out.append((dict(table), dict(src)))
+    return out
+
+
+def e2e_matches(vals, table, letters):
+    for L in letters:
+        want, got = table.get(L.upper()), vals[L]
+        if (got is None) != (want is None) or (got is not None and (not isinstance(got, (int, float)) or got != want)):
+            return False
+    return True
+
+
+def e2e_run(case, letters, grace=E2E_GRACE, limit=8.0):
+    """Drive one real writer through the session.  Returns (obs, sent, marks, notes): `obs[k]` = the readings after
+    stage k (None from the first stage the session did not reach), `sent` = every line the device put on the wire, in
+    order, `marks[k]` = how many of them had been sent when stage k was complete."""
+    import time
+
+    from . import sim_c16 as sim
+
+    stages = e2e_stages(case)
+    expected = e2e_expected(case)
+    replies = {s["stmt"]: k + 1 for k, s in enumerate(case["stmts"])}
+
+    class Scripted(sim.Session):
+        """the device side of `sim_c16.Session` answering by script, inside the callback that logs what it reads"""
+
+        def __init__(self, *a, **k):
+            super().__init__(*a, **k)
+            self.sent, self.marks, self.reads, self.held = [], {}, 0, None
+
+        def put_lines(self, lines, stage):
+            for ln in lines:
+                self.sent.append(ln)
+                if self.kind == "socket":
+                    self.tcp.put(ln.encode())
+                else:
+                    self.io().rxq.put(ln.encode())
+            if stage is not None:
+                self.marks[stage] = len(self.sent)
+
+        def _on_tx(self, i, line, ok):
+            super()._on_tx(i, line, ok)
+            if not ok:
+                return
+            self.reads += 1
+            if self.reads == 1:
+                self.io().free_run = True  # the device answers at once: the fake port's reads may time out freely (a connect() that gives up can then close it)
+            k = 0 if self.reads == 1 else replies.pop(line, None)
+            if k is None:
+                return self.put_lines(["ok\n"], None)
+            lines = [e2e_wire(it) for _, it in stages[k][1]]
+            cut = e2e_hold_index(lines) if k == 0 else None
+            if cut is None:
+                return self.put_lines(lines, k)
+            self.put_lines(lines[:cut], None)
+            self.held = lines[cut:]
+
+        def release_held(self):
+            snap = self.snapshot()
+            if self.held is not None and snap.get("printing") == "1" and snap.get("clear") == "0":
+                lines, self.held = self.held, None
+                self.put_lines(lines, 0)
+
+    S = Scripted(case["via"], [s["stmt"] + "\n" for s in case["stmts"]], False, gated=True)
+    obs, notes, late = [], [], False
+
+    def caller_gone():
+        return any(e[0] == "connect-raised" for e in S.ev)
+
+    try:
+        S.start()
+        for k in range(len(stages)):
+            if k > 0:
+                t_end = time.time() + limit
+                while time.time() < t_end and not any(e[0] in ("connected", "connect-raised") for e in S.ev):
+                    time.sleep(0.002)
+                S.permit()
+            t_end = time.time() + limit
+            while time.time() < t_end and k not in S.marks and not (k > 0 and caller_gone()):
+                S.release_held()
+                time.sleep(0.002)
+            if k not in S.marks:
+                notes.append(f"stage {k} ({stages[k][0]}) not reached: events {[e for e in S.ev if e[0] != 'tx'][-6:]}")
+                break
+            # once a stage has been judged late the verdict of the session is settled: later stages are only recorded
+            t_end = time.time() + (0.3 if late else grace)
+            while True:
+                vals = {L: S.writer.get_parameter(L) for L in letters}
+                if e2e_matches(vals, expected[k][0], letters):
+                    break
+                if time.time() > t_end:
+                    late = True
+                    break
+                time.sleep(0.004)
+            obs.append(vals)
+        if len(obs) == len(stages):  # let the last write() come back before the session is torn down
+            t_end = time.time() + 2.0
+            n = len(case["stmts"])
+            while time.time() < t_end and sum(1 for e in S.ev if e[0] == "ret") < n:
+                time.sleep(0.002)
+        for e in S.ev:
+            if e[0] == "connect-raised" or (e[0] == "ret" and e[2] != "returned"):
+                notes.append(f"caller: {e[0]} {e[1:3]}")
+    finally:
+        left = S.cleanup()
+    if left:
+        raise core.Infra(f"printcore threads left running: {left}")
+    obs += [None] * (len(stages) - len(obs))
+    return obs, list(S.sent), [S.marks.get(k) for k in range(len(stages))], notes
+
+
+def e2e_oracle(case, letters, obs, notes=()):
+    """After the device has sent the reports of a stage, get_parameter answers the first value of each reported
+    letter and the earlier reading of every other letter - wherever in the session the report was sent.  The device of
+    these sessions sends reports, greetings and `ok` only: a call of the caller that raises has taken one of them for an
+    error (the same clause as `error` in `oracle`)."""
+    stages = e2e_stages(case)
+    raised = [n for n in notes if n.startswith("caller:")]
+    for k, ((table, src), vals) in enumerate(zip(e2e_expected(case), obs)):
+        if vals is None:
+            break
+        for L in letters:
+            want, got = table.get(L.upper()), vals[L]
+            if (got is None) != (want is None) or (got is not None and (not isinstance(got, (int, float)) or got != want)):
+                where, line = src.get(L.upper(), ("never reported", ""))
+                fresh = any(it[0] == "report" and L.upper() in first_values(it[1]) for _, it in stages[k][1])
+                return ("e2e-first-wins" if fresh else "e2e-keeps", k,
+                        f"{case['via']} writer, after {stages[k][0]} and the device's lines {[e2e_wire(it) for _, it in stages[k][1]]}: "
+                        f"get_parameter({L!r}) = {got!r}, expected {want!r}"
+                        + (f" (first value of {L.upper()} in {line!r}, {where})" if line else " (no report mentioned it)"))
+    if raised:
+        k = min(len([v for v in obs if v is not None]), len(stages) - 1)
+        return ("e2e-error", k, f"{case['via']} writer: the device sent reports, greetings and ok only "
+                                f"{[e2e_wire(it) for _, items in stages for _, it in items]}, yet {raised[0]}")
+    return None
+
+
+def e2e_readings(vals, letters):
+    return " ".join(f"{L}={frac_text(vals[L])}" for L in letters)
+
+
+def run_e2e(R, cases, label):
+    done = []
+    for c in cases:
+        letters = e2e_letters(c)
+        for attempt in range(2):  # a session cut short (loaded machine) is played once more before it counts
+            obs, sent, marks, notes = e2e_run(c, letters)
+            if obs[-1] is not None or any(n.startswith("caller:") for n in notes):
+                break
+        verdict = e2e_oracle(c, letters, obs, notes)
+        if obs[-1] is None and not verdict:
+            raise core.Infra(f"end-to-end session did not complete: {notes} case {e2e_repr(c)}")
+        stage0 = [it for _, it in e2e_stages(c)[0][1]]
+        R.case(e2e_repr(c), nontrivial=len(e2e_expected(c)[-1][0]) >= 2, validated=False)
+        R.count(label, "e2e-via:" + c["via"], f"e2e-statements:{len(c['stmts'])}")
+        R.count(*["e2e-report:" + w for w, tag in (("before-the-probe-answer", "hello"), ("answering-the-probe", "probe"), ("behind-the-probe-answer", "after"))
+                  if any(k == "report" for k, _ in c[tag])])
+        if stage0 and stage0[0][0] == "report":
+            R.count("e2e-first-line-of-the-session-is-a-report")
+        # distribution only: which line proves the device alive by the bundled sender's rule (greeting / leading ok / `T:`)
+        alive = next((i for i, it in enumerate(stage0) if e2e_wire(it).startswith(("start", "Grbl ", "ok")) or "T:" in e2e_wire(it)), None)
+        if alive is not None:
+            R.count("e2e-alive-line:" + ("report" if stage0[alive][0] == "report" else "greeting" if stage0[alive][1] in GREETINGS else "bare-ok"))
+            if any(it[0] == "report" for it in stage0[:alive]):
+                R.count("e2e-report-ahead-of-the-alive-line")
+            if e2e_hold_index([e2e_wire(it) for it in stage0]) is not None:
+                R.count("e2e-grbl-greeting-first:probe-answered-late")
+        if any(k == "plain" and t in GREETINGS for k, t in c["hello"]):
+            R.count("e2e-greeting")
+        for n in notes:
+            R.count("e2e-note:" + n.split(":")[0])
+        if verdict:
+            tag, k, msg = verdict
+            R.fail(e2e_repr(c), msg, tag=tag, step=k)
+        done.append((c, letters, obs, sent, marks))
+    # the same lines through the model: its readings after the line that completes each stage
+    out = core.run_model(MODE, ["d " + letters + " | " + " | ".join(cps(ln) for ln in sent) for _, letters, _, sent, _ in done]) if done else []
+    for (c, letters, obs, sent, marks), rec in zip(done, out):
+        model_recs = [model_to_double(x) for x in rec.split(" ; ")]
+        for k, (vals, m) in enumerate(zip(obs, marks)):
+            if vals is None or m is None:
+                break
+            R.traces_validated += 1
+            mo = " ".join(model_recs[m - 1].split(" ")[2:])
+            if e2e_readings(vals, letters) != mo:
+                R.disagree("deliver-report-end-to-end", e2e_repr(c), e2e_readings(vals, letters), mo, step=k)
+                break
+
+
 def _quiet():
     lg = logging.getLogger("gscrib")
     lg.setLevel(logging.CRITICAL + 1)
@@ -748,6 +1059,45 @@ CORPUS = [
 ]
 
 
+def _d(text):
+    neg = text.startswith("-")
+    ip, dot, fp = text.lstrip("-").partition(".")
+    return (neg, ip, fp if dot else None)
+
+
+def _rep(family, toks, ok=False, lead="", trail="", frame=(None, " ", None)):
+    return {"family": family, "lead": lead, "ok": ok, "open": frame[0], "sep": frame[1], "close": frame[2], "trail": trail, "toks": toks}
+
+
+def _temp(t, b, ok=False, lead="", trail=""):
+    return _rep("marlin-temp", [("L", "T", _d(t)), ("N", "/0.0"), ("L", "B", _d(b)), ("N", "/0.0"), ("N", "@:0"), ("N", "B@:0")], ok, lead, trail)
+
+
+def _pos(x, y, z, e, ok=False):
+    return _rep("marlin-pos", [("L", "X", _d(x)), ("L", "Y", _d(y)), ("L", "Z", _d(z)), ("L", "E", _d(e)), ("N", "Count"),
+                               ("L", "X", _d("800")), ("L", "Y", _d("-1640")), ("L", "Z", _d("120"))], ok)
+
+
+def _status(state, x, y, z, f, s):
+    return _rep("grbl-status", [("N", state), ("P", "m", [_d(x), _d(y), _d(z)], None), ("F", _d(f), _d(s))], trail="\r", frame=("<", "|", ">"))
+
+
+E2E_CORPUS = [
+    # a Marlin board behind a TCP bridge, temperature auto-report left on by an earlier session: it talks first
+    {"e2e": True, "via": "socket", "hello": [("report", _temp("21.4", "-2.75", lead=" "))], "probe": [("plain", "ok")], "after": [],
+     "stmts": [{"stmt": "M114", "reply": [("report", _pos("10.00", "-20.50", "0.30", "1.25")), ("plain", "ok")]}]},
+    # a firmware that answers every command with its temperatures, the connect probe included; a position report behind it
+    {"e2e": True, "via": "serial", "hello": [], "probe": [("report", _temp("199.6", "60.2", ok=True))], "after": [("report", _pos("0.00", "0.00", "5.00", "0.00"))],
+     "stmts": [{"stmt": "M105", "reply": [("report", _temp("200.3", "60.0", ok=True))]}]},
+    # Grbl: a status report queued before the greeting, the greeting, a bare ok for the probe and a status behind it,
+    # then a probing move answered with the probe report
+    {"e2e": True, "via": "socket", "hello": [("report", _status("Idle", "1.000", "2.000", "-3.000", "0", "0")), ("plain", GREETINGS[1])], "probe": [("plain", "ok")],
+     "after": [("report", _status("Run", "1.500", "2.000", "-3.000", "500", "8000"))],
+     "stmts": [{"stmt": "G38.2 Z-5 F50", "reply": [("report", _rep("grbl-probe", [("P", "p", [_d("4.000"), _d("5.000"), _d("-0.125")], True)], trail="\r", frame=("[", "|", "]"))),
+                                                     ("plain", "ok")]}]},
+]
+
+
 def run(R: core.Run):
     with logging_state():  # the check leaves the global logging configuration as it found it
         return _run(R)
@@ -759,13 +1109,19 @@ def _run(R: core.Run):
               "'.5', noise, ignored fields, padding, leading ok), error/alarm lines; plus malformed lines (correspondence only); "
               "40 % of the sequences delivered under an application's logging configuration (root / package / module logger at DEBUG, INFO "
               "or WARNING, formatting or dropping handler, switched on before the writer exists or between two lines); "
+              "(c) a few end-to-end sessions: a connected SerialWriter / SocketWriter and a scripted device reporting before it has read "
+              "anything, in its answer to the connect probe, right behind it, and in answer to 1-2 written statements; "
               "non-trivial = the sequence reports >= 2 different letters; distinct by hash")
     R.assumptions = [
         "device messages are ASCII (Python's \\d, float(), str.strip and str.lower also know non-ASCII digits, blanks and case pairs)",
         "single-letter report keys are upper-case or digits, as Marlin and Grbl print them: the first-occurrence bookkeeping is case-sensitive, "
         "so a line naming one letter in both cases (x:1 X:2) reads the last one - outside the report families, covered by the correspondence only",
         "float(text) is the double nearest to the decimal text (the model holds the exact rational; compared after rounding it to a double)",
-        "the writer is never connected: the receive callback is called directly, as the repository's tests drive the writer",
+        "in (b) the writer is never connected: the receive callback is called directly, as the repository's tests drive the writer; "
+        "in (c) the lines travel through the bundled sender's reader thread, and a reading is judged once the device has sent the line "
+        f"and up to {E2E_GRACE} s have passed",
+        "(c): a device greeting with `Grbl …` holds back its answer to the connect probe until the sender's start-up job waits for it "
+        "(answered earlier, connect() never returns - the liveness observation of Props/C16.lean, outside this property)",
         "ambient configuration varied: logging levels and handlers only (locale, warnings filters, float context are left alone)",
     ]
     _quiet()
@@ -776,6 +1132,8 @@ def _run(R: core.Run):
     run_reports(R, cases, "reports")
     garbage = [gen_garbage_case(R.rng) for _ in range(max(1, n // 6))]
     run_reports(R, garbage, "malformed")
+    run_e2e(R, E2E_CORPUS, "e2e-corpus")
+    run_e2e(R, [gen_e2e_case(R.rng) for _ in range(R.n(4, 60))], "e2e")
     if R.broken:
         R.search_batches += 1
         for _ in range(R.n(6000, 30000)):
@@ -812,6 +1170,25 @@ def _replay(data):
         print("re   :", io)
         print("model:", mo)
         return 1 if io != mo else 0
+    if case.get("e2e"):
+        c = {"e2e": True, "via": case["via"], "stmts": [{"stmt": x["stmt"], "reply": [tuple(it) for it in x["reply"]]} for x in case["stmts"]],
+             **{k: [tuple(it) for it in case[k]] for k in ("hello", "probe", "after")}}
+        letters = e2e_letters(c)
+        obs, sent, marks, notes = e2e_run(c, letters)
+        mo = [model_to_double(x) for x in core.run_model(MODE, ["d " + letters + " | " + " | ".join(cps(ln) for ln in sent)])[0].split(" ; ")]
+        bad = False
+        for k, ((what, items), vals, m) in enumerate(zip(e2e_stages(c), obs, marks)):
+            print("stage:", what, "- the device sent", [e2e_wire(it) for _, it in items])
+            if vals is None or m is None:
+                print("       not reached", notes)
+                return 1
+            a, b = e2e_readings(vals, letters), " ".join(mo[m - 1].split(" ")[2:])
+            print("impl :", a)
+            print("model:", b)
+            bad = bad or a != b
+        verdict = e2e_oracle(c, letters, obs, notes)
+        print("oracle:", verdict[2] if verdict else "ok")
+        return 1 if (bad or verdict) else 0
     c = {"via": case["via"], "items": [(k, v) for k, v in case["items"]]}
     if case.get("log"):
         c["log"] = case["log"]
